@@ -15,14 +15,15 @@ import (
 
 // Program is the loaded SSA form of /repo's current working tree.
 type Program struct {
-	embedded map[string]bool
-	parents  map[string]map[string]bool // named struct -> named structs that contain it by value (through arrays and anonymous structs)
-	anonTop  map[string]bool            // (unused: anonymous tops are named by their type string)
-	noLayout map[string]bool            // struct types whose pointers are converted from/to pointers of another type
-	Prog  *ssa.Program
-	Pkgs  map[string]*ssa.Package // by import path
-	PPkgs map[string]*packages.Package
-	Dir   string
+	embedded  map[string]bool
+	parents   map[string]map[string]bool        // named struct -> named structs that contain it by value (through arrays and anonymous structs)
+	anonTop   map[string]bool                   // (unused: anonymous tops are named by their type string)
+	noLayout  map[string]bool                   // struct types whose pointers are converted from/to pointers of another type
+	ghostMods map[*ssa.Function]map[string]bool // ghost variables a function may update (see ghostModsOf)
+	Prog      *ssa.Program
+	Pkgs      map[string]*ssa.Package // by import path
+	PPkgs     map[string]*packages.Package
+	Dir       string
 }
 
 func repoDir() string {
